@@ -4,6 +4,27 @@ import random
 from .. import indexdriver, concdriver, sched, common
 from ..common import Outcome, pmap, validate_all, known_findings
 from ..envctl import MachineryError
+from ..tlc import run_tlc
+
+
+def design_level(out, tier):
+    """IndexSeq.tla (refinement of the composed cache operations to the ordered dictionary) and IndexConc.tla
+    (transactions and value-file operations of concurrent clients); the released lookup must break PresentKeyAlwaysFound."""
+    res = run_tlc('MCIndex.tla', 'MCIndex.cfg', workers=8, timeout=300)
+    if res.error or res.violation:
+        raise MachineryError('MCIndex: %s %s\n%s' % (res.error, res.violation, res.out[-1500:]))
+    out.add_tlc('MCIndex.cfg', res, 'refinement to the ordered dictionary: 3 keys, values {1,2}, every operation incl. two-pair update and views')
+    names = ['inline', 'remove'] + (['intended'] if tier == 'thorough' else [])
+    for name in names:
+        res = run_tlc('MCIndexConc.tla', 'MCIndexConc_%s.cfg' % name, workers=16, timeout=900)
+        if res.error or res.violation:
+            raise MachineryError('MCIndexConc_%s: %s %s\n%s' % (name, res.error, res.violation, res.out[-1500:]))
+        first = open(__import__('os').path.join(__import__('harness').SPEC, 'MCIndexConc_%s.cfg' % name)).readline().strip()
+        out.add_tlc('MCIndexConc_%s.cfg' % name, res, first)
+    res = run_tlc('MCIndexConc.tla', 'MCIndexConc_dev_race.cfg', workers=4, timeout=300)
+    if res.violation != 'PresentKeyAlwaysFound':
+        raise MachineryError('MCIndexConc_dev_race was expected to violate PresentKeyAlwaysFound, got %s %s' % (res.violation, res.error))
+    out.notes['design_deviations_rejected'] = ['dev_race (released lookup, file-backed values) violates PresentKeyAlwaysFound = known finding F12']
 
 F1 = 200000 + 40 * 100 + 1
 F2 = 200000 + 48 * 100 + 2
@@ -39,6 +60,7 @@ def _conc_rand(cfg, prog, seed):
 
 def run(prop, tier, seed):
     out = Outcome('C12', tier, seed)
+    design_level(out, tier)
     rng = random.Random(seed * 122949823 + 12)
     jobs = []
     tid = 0
@@ -108,7 +130,7 @@ def run(prop, tier, seed):
     out.samples.append({'ops': [[e['op'], e['a'], e['ret']] for e in traces[0]['ev'][:15]]})
     out.notes.update({'sequential_histories': len(traces), 'stdlib_cross_check_histories': sum(1 for t in traces if t.get('impl') == 'stdlib'),
                       'concurrent_schedules': len(ctr)})
-    out.level = 'exploration'
+    out.level = 'model_checking'
     return out.finish({'evaluations': len(alltr), 'distinct_nontrivial': len({str(t.get('program', t['ev'][:5])) for t in alltr}),
                        'rule': 'seeded random operation histories on diskcache.Index (direct, FanoutCache.index, DjangoCache.index) and on OrderedDict '
                                '(cross-check of the spec), plus scheduler-enumerated 2-client programs (all schedules up to 2 preemptions) and random 2-3 client programs; '
